@@ -215,6 +215,11 @@ impl Driver {
             for l in BufReader::new(stdout).lines() {
                 match l {
                     Ok(l) => {
+                        // adlt itself prints diagnostics to stdout (e.g. the file-transfer save command): only the
+                        // driver's own result lines are protocol
+                        if !(l.starts_with('{') && l.contains("\"frames\"")) {
+                            continue;
+                        }
                         if tx.send(l).is_err() {
                             break;
                         }
@@ -285,6 +290,8 @@ pub fn alphabet() -> Vec<Sym> {
         Sym::Raw("open_onepass", r#"open {"files":["{FILE}"],"collect":"one_pass_streams"}"#),
         Sym::Raw("open_nocollect", r#"open {"files":["{FILE}"],"collect":false}"#),
         Sym::Raw("open_sorted", r#"open {"files":["{FILE}"],"sort":true}"#),
+        // two plugins of the same name + one that does not support commands (only used in prepared start states)
+        Sym::Raw("open_plugins", r#"open {"files":["{FILE}"],"plugins":[{"name":"FileTransfer","allowSave":false},{"name":"FileTransfer","allowSave":false,"keepFLDA":true},{"name":"Rewrite","rewrites":[]}]}"#),
         Sym::Raw("open_missing_file", r#"open {"files":["/nonexistent/x.dlt"]}"#),
         Sym::Raw("open_malformed_json", r#"open {"files":"#),
         Sym::Raw("open_noarg", "open"),
@@ -327,6 +334,8 @@ pub fn alphabet() -> Vec<Sym> {
         Sym::WithId("ssearch_stale", "stream_search", Stale, Some(r#"{"filters":[]}"#)),
         Sym::WithId("ssearch_missing_id", "stream_search", Missing, None),
         Sym::Raw("plugin_cmd_unknown_plugin", r#"plugin_cmd {"name":"nope","cmd":"x"}"#),
+        Sym::Raw("plugin_cmd_ft_save", r#"plugin_cmd {"name":"FileTransfer","cmd":"save","params":{"saveAs":"/nonexistent-dir/x.bin"},"cmdCtx":{"save":{"idx":0}}}"#),
+        Sym::Raw("plugin_cmd_rewrite", r#"plugin_cmd {"name":"Rewrite","cmd":"anything"}"#),
         Sym::Raw("plugin_cmd_malformed", "plugin_cmd {"),
         Sym::Raw("plugin_cmd_nonobject", "plugin_cmd [1]"),
         Sym::Raw("fs_stat", r#"fs {"cmd":"stat","path":"/repo/tests"}"#),
@@ -506,7 +515,7 @@ impl Session {
             let name = sym.name();
             let expect: Option<&str> = match sym {
                 Sym::Raw(n, _) => match *n {
-                    "open_ok" | "open_onepass" | "open_nocollect" | "open_sorted" => Some(if self.model.open { "err" } else { "ok" }),
+                    "open_ok" | "open_onepass" | "open_nocollect" | "open_sorted" | "open_plugins" => Some(if self.model.open { "err" } else { "ok" }),
                     "open_missing_file" | "open_malformed_json" | "open_noarg" | "open_badcollect" => Some("err"),
                     "close" | "pause" | "resume" => Some(if self.model.open { "ok" } else { "err" }),
                     "stream_nobody" | "stream_malformed" => Some("err"),
@@ -528,7 +537,7 @@ impl Session {
                             None
                         }
                     }
-                    "plugin_cmd_malformed" | "plugin_cmd_nonobject" | "fs_malformed" | "fs_nonobject" | "plugin_cmd_unknown_plugin" => Some("err"),
+                    "plugin_cmd_malformed" | "plugin_cmd_nonobject" | "fs_malformed" | "fs_nonobject" | "plugin_cmd_unknown_plugin" | "plugin_cmd_rewrite" => Some("err"),
                     "fs_stat" => Some("ok"),
                     "unknown_word" | "empty" => Some("unknown"),
                     _ => None,
@@ -716,7 +725,7 @@ impl Prop for C15 {
         // (start history, depth, alphabet of the search). The searches over the full alphabet share one seen-set; the
         // "flow" searches go deeper over the session-flow commands only (pause/resume/stream/stop/ticks) and keep their own
         // seen-set, so that states already met at a shallower depth are expanded again
-        let full = sigma.clone();
+        let full: Arc<Vec<Sym>> = Arc::new(sigma.iter().filter(|s| s.name() != "open_plugins").cloned().collect());
         let sub = |names: &[&str]| -> Option<Arc<Vec<Sym>>> { Some(Arc::new(names.iter().map(|n| sigma.iter().find(|s| &s.name() == n).unwrap_or_else(|| panic!("symbol {n}")).clone()).collect())) };
         let flow_depth = ctx.tier.pick(4, 6);
         let seeds: Vec<(Vec<Sym>, usize, Option<Arc<Vec<Sym>>>)> = vec![
@@ -728,6 +737,8 @@ impl Prop for C15 {
             (by(&["open_ok", "pause", "stream_default", "T3", "resume"]), ctx.tier.pick(2, 3), None),
             // two live streams: commands addressing the older one (ids are no longer in creation order after a window change)
             (by(&["open_ok", "stream_window_bin", "stream_filters", "T3"]), ctx.tier.pick(2, 3), None),
+            // a session with plugins: two of the same name and one without command support
+            (by(&["open_plugins", "stream_default", "T3"]), ctx.tier.pick(2, 3), None),
             (by(&["open_onepass", "stream_onepass", "resume", "T3"]), flow_depth, sub(&["pause", "resume", "stream_onepass", "stream_onepass_filters", "query_window", "stop_last", "close", "T1", "T3", "Tinf"])),
             (by(&["open_ok", "stream_default", "T3"]), flow_depth - 1, sub(&["pause", "resume", "stream_default", "stream_filters", "query_window", "stop_last", "chgwin_last", "T1", "T3", "Tinf"])),
         ];
